@@ -234,6 +234,54 @@ pub fn run(ctx: &Ctx) -> i32 {
     }
     let s1d = SubReport::new("sources", "A", "with_file + build on source paths of every kind: regular files whose modification time is 1901, −366 d, −2 s … 2^33 s, year 9999 (× whole / half second), a directory, a missing path, an empty path, a dangling and a self-referential symbolic link, a file with mode 000, readable / missing / directory names that are not valid UTF-8, kernel-backed files, /dev/null; oracle: Ok or Err, never a panic. non-trivial = accepted", a4);
 
+    // ---- destinations whose length is around the limits of the archive format (name field of 4096 bytes incl. "." and NUL)
+    let mut a7 = Acc::new();
+    {
+        let mut lens: Vec<usize> = (4088..=4100).collect();
+        lens.extend([255, 256, 257, 1023, 1024, 1025, 65_535, 65_536]);
+        let mut idx = 0u64;
+        for total in lens {
+            for (prefix, shape) in [("/", "one long name"), ("./", "one long name"), ("/", "nested 200-byte components"), ("/d/", "long name in a directory")] {
+                for large in [false, true] {
+                    idx += 1;
+                    a7.evals += 1;
+                    let body_len = total.saturating_sub(prefix.len());
+                    let body: String = if shape.starts_with("nested") {
+                        let mut b = String::new();
+                        while b.len() < body_len {
+                            let take = (body_len - b.len()).min(200);
+                            if !b.is_empty() && take > 1 {
+                                b.push('/');
+                                b.push_str(&"n".repeat(take - 1));
+                            } else {
+                                b.push_str(&"n".repeat(take));
+                            }
+                        }
+                        b
+                    } else {
+                        "n".repeat(body_len)
+                    };
+                    let dest = format!("{}{}", prefix, body);
+                    let case = json!({"kind": "long-destination", "length": dest.len(), "shape": shape, "prefix": prefix, "large_file_layout": large});
+                    crate::hooks::set_force_large_files(large);
+                    let r = catch(|| {
+                        PackageBuilder::new("t", "1", "MIT", "noarch", "s").compression(none).with_file(&src, FileOptions::new(dest.clone())).and_then(|b| b.build()).map(|_| ()).map_err(|e| err_kind(&e))
+                    });
+                    crate::hooks::set_force_large_files(false);
+                    match r {
+                        Err(p) => a7.viol(panic_violation("long-destinations", &p, case).sig("arg", "destination").rank(idx)),
+                        Ok(Err(k)) => a7.count(&format!("rejected: {}", k)),
+                        Ok(Ok(())) => {
+                            a7.nontrivial += 1;
+                            a7.count("accepted");
+                        }
+                    }
+                }
+            }
+        }
+    }
+    let s1f = SubReport::new("long-destinations", "A", "destinations of every length 4088..=4100 and of 255, 256, 257, 1023, 1024, 1025, 65 535, 65 536 bytes, as one long name after '/' or './', nested 200-byte components, a long name in a directory; standard and large-file layout; with_file + build: Ok or Err, never a panic. non-trivial = accepted", a7);
+
     // ---- link targets of symbolic-link entries: any text, at links of several depths
     let ltok = ["/", "..", ".", "a"];
     let llen = if ctx.thorough() { 7 } else { 5 };
@@ -407,7 +455,7 @@ pub fn run(ctx: &Ctx) -> i32 {
     }
     ctx.finish(
         "exploration",
-        vec![s1, s1b, s1c, s1d, s1e, s2, s3, s4, s5],
+        vec![s1, s1b, s1c, s1d, s1e, s1f, s2, s3, s4, s5],
         &[
             "which in-between destinations (e.g. '/a/.', '/../a') are accepted is not specified; they must only not panic and, if accepted, give a usable package",
             "timestamp arguments of non-integer types (chrono dates before 1970) are outside the statement's 'strings and numbers'",
